@@ -13,16 +13,18 @@ empty show(const bool[] a) { write('{'); for (int i = 0; i < a.length; i += 1) {
 LENGTHS = [-32768, -9, -8, -7, -3, -1, 0, 1, 2, 7, 8, 9, 15, 16, 17, 31, 33, 100, 1000, 5000, 16383, 16384, 32767]
 
 
-def vla_program(el):
+def vla_program(el, length_from='param'):
     fill = {'int': 'i * 3 - 1', 'byte': '(i + 65) is byte', 'bool': '(i % 3) == 0', 'string': '"s"'}[el]
     show = 'show(a);' if el != 'string' else 'for (int j = 0; j < a.length; j += 1) { write(a[j]); }'
     return UTIL + f'''
 int canary = 12345;
+int gn = 0;
 empty @is_you(int n, int k) {{
+    gn = n;
     int before = 777;
     byte[] guard1 = ['G', 'U', 'A', 'R', 'D'];
     write("start ");
-    {el} a[n];
+    {el} a[{'gn' if length_from == 'global' else 'n' if length_from == 'param' else 'n + 0'}];
     int after = 888;
     write(a.length); write(' ');
     for (int i = 0; i < a.length; i += 1) {{ a[i] = {fill}; }}
@@ -264,6 +266,10 @@ def cases(seed, count):
         src = vla_program(el)
         for n in LENGTHS:
             out.append((f'vla-{el}', src, [str(n), str(r.choice([-1, 0, 1, 7, 8, 9, 40]))]))
+        for lf in ('global', 'computed'):
+            src2 = vla_program(el, lf)
+            for n in (-1, 0, 1, 5, 8, 9, 13, 17, 100):
+                out.append((f'vla-{el}-length-{lf}', src2, [str(n), str(r.choice([0, 7, 40]))]))
         # lengths whose byte size wraps around to (almost) nothing at 16, 24 and 32 bits, with the two k values
         # for which the template stores to a[k] unconditionally: only the language's own guards stand in the way
         for n in (-32768, -32767, -32766, -32764, -32760, -8388608, -8388607, -8388606, -2147483648, -2147483647, -2147483646):
